@@ -297,7 +297,7 @@ impl SortedUintVec {
 
     /// Get two consecutive values efficiently
     pub fn get2(&self, index: usize) -> Result<(u64, u64)> {
-        if index + 1 >= self.size {
+        if index >= self.size || index + 1 >= self.size {
             return Err(ZiporaError::invalid_data("index out of bounds"));
         }
 
